@@ -404,7 +404,32 @@ func (w *world) verify() {
 // (what the root commitment binds): branch = child hashes + weight sum, short =
 // key, value = value + weight.  Claimed per-child weights, claimed short-node
 // weights and stored hash fields are not bound and are left out.
-func effHashed(b []byte) string {
+func effHashed(b []byte) string { return effHashedExcept(b, -1) }
+
+// slotOf: the child slot of branch node b whose claimed hash is the hash the next path node claims for itself.
+func slotOf(b, next []byte) int {
+	p, q := decodeNode(b), decodeNode(next)
+	if p == nil || p.Branch == nil || q == nil {
+		return -1
+	}
+	var h []byte
+	switch {
+	case q.Branch != nil:
+		h = q.Branch.Hash
+	case q.Short != nil:
+		h = q.Short.Hash
+	case q.Value != nil:
+		h = q.Value.Hash
+	}
+	for i, c := range p.Branch.Children {
+		if len(c) >= 40 && h != nil && bytes.Equal(c[:32], h) {
+			return i
+		}
+	}
+	return -1
+}
+
+func effHashedExcept(b []byte, skip int) string {
 	p := decodeNode(b)
 	if p == nil {
 		return "undecodable:" + string(b)
@@ -413,9 +438,13 @@ func effHashed(b []byte) string {
 	case p.Branch != nil:
 		s := "B"
 		var sum uint64
-		for _, c := range p.Branch.Children {
+		for i, c := range p.Branch.Children {
 			if len(c) >= 40 {
-				s += fmt.Sprintf("|%x", c[:32])
+				if i == skip {
+					s += "|on-path"
+				} else {
+					s += fmt.Sprintf("|%x", c[:32])
+				}
 				sum += weightAt(c)
 			} else {
 				s += "|-"
@@ -493,7 +522,15 @@ func (w *world) forgeryKind(st *c10, returned []byte) string {
 	}
 	reweighted := false
 	for i := range honest {
-		if effHashed(st.nodes[i]) != effHashed(honest[i]) {
+		// The hash a branch claims for the child the path continues into is not bound either: the verifier
+		// replaces that child by the node it recomputes from the rest of the message. (Found by the thorough
+		// tier: a root branch substituted from the proof of another trie, differing only in that slot, plus a
+		// redistribution of the claimed weights, was classified as a new kind of forgery.)
+		skip := -1
+		if i+1 < len(honest) {
+			skip = slotOf(honest[i], honest[i+1])
+		}
+		if effHashedExcept(st.nodes[i], skip) != effHashedExcept(honest[i], skip) {
 			return "other:altered-hashed-field"
 		}
 		if childWeights(st.nodes[i]) != childWeights(honest[i]) {
